@@ -40,10 +40,11 @@ where
                 });
             }
         } else {
-            if let Some(i) = graph
-                .next_edge_to(storage, current_index.index)
-                .ok()
-                .filter(|i| i.is_valid())
+            if current_index.distance != 0
+                && let Some(i) = graph
+                    .next_edge_to(storage, current_index.index)
+                    .ok()
+                    .filter(|i| i.is_valid())
             {
                 self.stack.push(SearchIndex {
                     index: i,
